@@ -78,6 +78,7 @@ func runCase(c Case) caseResult {
 			continue
 		}
 		vm.StrictDeviations = c.Opt.StrictDev
+		vm.DefaultPolicy = c.Opt.Policy
 		r1 := vm.Replay(c.Sc, v.Choices)
 		r2 := vm.Replay(c.Sc, v.Choices)
 		m1, m2 := "", ""
@@ -288,6 +289,14 @@ func replay(run *common.Run, cases []Case) {
 	for _, c := range cases {
 		if c.Sc.Name != rf.Scenario {
 			continue
+		}
+		vm.StrictDeviations = c.Opt.StrictDev
+		vm.DefaultPolicy = c.Opt.Policy
+		if os.Getenv("VM_TRACE") != "" {
+			vm.TraceSched = func(p int, now int64, en []string) {
+				fmt.Printf("  sched p%d t=%dms %s\n", p, now/1e6, strings.Join(en, " "))
+			}
+			vm.TraceLog = func(s string) { fmt.Println("  obs:", s) }
 		}
 		r := vm.Replay(c.Sc, rf.Choices)
 		fmt.Printf("scenario %s status=%s end=%dns\n", c.Sc.Name, r.Status, r.EndTime)
